@@ -326,13 +326,15 @@ def install_numeric_shims(p: Patcher, facade: SymNP | None = None, modules=NP_MO
     p.set("glotaran.parameter.parameters", "isinstance", sym_isinstance, "isinstance accepting SymReal as float")
     p.set("glotaran.optimization.optimizer", "float", sym_float, "float() passing SymReal through")
     p.set("glotaran.optimization.matrix_provider", "float", sym_float, "float() passing SymReal through")
-    vals = attrs.fields(Parameter).value.validator
-    for vv in getattr(vals, "_validators", (vals,)):
-        if hasattr(vv, "type"):
-            old = vv.type
-            object.__setattr__(vv, "type", (float, SymReal))
-            p._undo.append((_ValidatorSlot(vv), "type", old, object()))
-            p.record.append("attrs validator of Parameter.value accepts SymReal")
+    for attr_name in ("value", "minimum", "maximum"):
+        vals = getattr(attrs.fields(Parameter), attr_name).validator
+        for vv in getattr(vals, "_validators", (vals,)):
+            if hasattr(vv, "type"):
+                old = vv.type
+                oldt = old if isinstance(old, tuple) else (old,)
+                object.__setattr__(vv, "type", (*oldt, SymReal))
+                p._undo.append((_ValidatorSlot(vv), "type", old, object()))
+                p.record.append(f"attrs validator of Parameter.{attr_name} accepts SymReal")
     return facade
 
 
